@@ -264,6 +264,44 @@ func safeEncode(f *fit.File, arch binary.ByteOrder) (b []byte, tag string) {
 
 func decTag(err error) string { return tag(err) }
 
+// recWriter keeps what it accepted; after `left` bytes it fails (a short write first when a call
+// straddles the limit)
+type recWriter struct {
+	left int
+	got  []byte
+}
+
+func (w *recWriter) Write(p []byte) (int, error) {
+	if len(p) <= w.left {
+		w.left -= len(p)
+		w.got = append(w.got, p...)
+		return len(p), nil
+	}
+	n := w.left
+	w.left = 0
+	w.got = append(w.got, p[:n]...)
+	return n, fmt.Errorf("write fault")
+}
+
+// faultEncode: Encode of a freshly built File into a writer that fails after k bytes; ok reports
+// that Encode returned nil (panics count as not-ok: C05's other sets look at those)
+func faultEncode(dump string, arch binary.ByteOrder, k int) (got []byte, ok bool) {
+	f, err := buildFile(dump)
+	if err != nil {
+		return nil, false
+	}
+	defer func() {
+		if r := recover(); r != nil {
+			got, ok = nil, false
+		}
+	}()
+	w := &recWriter{left: k}
+	if err := fit.Encode(w, f, arch); err != nil {
+		return nil, false
+	}
+	return w.got, true
+}
+
 func init() {
 	extraOps["enc"] = func(a []string) string {
 		if len(a) != 2 {
@@ -277,7 +315,18 @@ func init() {
 		if t != "ok" {
 			return t + " - - -"
 		}
-		return fmt.Sprintf("ok %s H%s C%d", hex.EncodeToString(b), renderHeader(f.Header), f.CRC)
+		res := fmt.Sprintf("ok %s H%s C%d", hex.EncodeToString(b), renderHeader(f.Header), f.CRC)
+		// the same File into writers that fail after k bytes: when Encode reports success, what the
+		// writer received must be the whole stream
+		for _, k := range []int{0, 1, 13, len(b) / 2, len(b) - 3, len(b) - 2, len(b) - 1, len(b)} {
+			if k < 0 || k > len(b) {
+				continue
+			}
+			if got, ok := faultEncode(a[1], archOf(a[0]), k); ok && !bytes.Equal(got, b) {
+				return fmt.Sprintf("fault-swallowed writer-failed-after=%d received=%d of=%d", k, len(got), len(b))
+			}
+		}
+		return res
 	}
 	// enc2 <arch> <proto> <file>: Encode, change the protocol version of the same File (its header now
 	// holds the data size and the CRCs just written), Encode again: the second output
